@@ -9,19 +9,19 @@ Open Scope R_scope.
 Definition Rsum (l : list R) : R := fold_right Rplus 0 l.
 
 Lemma Rsum_app l1 l2 : Rsum (l1 ++ l2) = Rsum l1 + Rsum l2.
-Proof. induction l1 as [|a l IH]; cbn; [lra|]. rewrite IH. lra. Qed.
+Proof. unfold Rsum. induction l1 as [|a l IH]; cbn [app fold_right]; [lra|]. rewrite IH. lra. Qed.
 
 (** ** cumulative sums *)
 Fixpoint presum (f : nat -> R) (k : nat) : R :=      (* f 0 + ... + f k *)
   match k with O => f O | S k' => presum f k' + f k end.
 
-Lemma cumsum_from_length acc l : length (cumsum_from RNum acc l) = length l.
+Lemma cumsum_from_length (acc : R) (l : list R) : length (cumsum_from RNum acc l) = length l.
 Proof. revert acc; induction l as [|x r IH]; intro acc; cbn; [reflexivity|]. rewrite IH. reflexivity. Qed.
 
-Lemma cumsum_length l : length (cumsum RNum l) = length l.
+Lemma cumsum_length (l : list R) : length (cumsum RNum l) = length l.
 Proof. apply cumsum_from_length. Qed.
 
-Lemma cumsum_from_nth : forall l acc k, (k < length l)%nat ->
+Lemma cumsum_from_nth : forall (l : list R) (acc : R) k, (k < length l)%nat ->
   nth k (cumsum_from RNum acc l) 0 = acc + Rsum (firstn (S k) l).
 Proof.
   induction l as [|x r IH]; intros acc k Hk; [cbn in Hk; lia|].
@@ -38,11 +38,17 @@ Proof.
   rewrite seq_S, map_app, Rsum_app, IH. cbn. lra.
 Qed.
 
+Lemma firstn_seq' : forall m a n, (m <= n)%nat -> firstn m (seq a n) = seq a m.
+Proof.
+  induction m as [|m IH]; intros a n H; [reflexivity|].
+  destruct n as [|n]; [lia|]. cbn [seq firstn]. rewrite IH by lia. reflexivity.
+Qed.
+
 Lemma cumsum_tabulate_nth f n k : (k < n)%nat ->
   nth k (cumsum RNum (tabulate n f)) 0 = presum f k.
 Proof.
   intro Hk. unfold cumsum, tabulate. rewrite cumsum_from_nth by (rewrite map_length, seq_length; exact Hk).
-  rewrite firstn_map, firstn_seq, Nat.min_l by lia. rewrite Rsum_map_seq. cbn [RNum zero]. lra.
+  rewrite firstn_map, firstn_seq' by lia. rewrite Rsum_map_seq. cbn [RNum zero]. lra.
 Qed.
 
 (** ** difference arrays *)
@@ -51,7 +57,7 @@ Lemma presum_fupd f a v k :
 Proof.
   induction k as [|k IH].
   - cbn [presum]. unfold fupd. destruct a as [|a]; cbn; lra.
-  - cbn [presum]. rewrite IH. unfold fupd at 2.
+  - cbn [presum]. rewrite IH. unfold fupd.
     destruct (Nat.eqb_spec (S k) a) as [E|E].
     + subst a. replace (S k <=? k)%nat with false by (symmetry; apply Nat.leb_gt; lia).
       rewrite Nat.leb_refl. lra.
@@ -119,7 +125,7 @@ Section Area.
 End Area.
 
 (** ** sorted distinct values and ranks *)
-Lemma uinsert_incr' : forall r z x, z < x -> incr (z :: r) -> incr (z :: uinsert RNum x r).
+Lemma uinsert_incr' : forall (r : list R) (z x : R), z < x -> incr (z :: r) -> incr (z :: uinsert RNum x r).
 Proof.
   induction r as [|y r IH]; intros z x Hzx Hi; [cbn; tauto|].
   destruct Hi as [Hzy Hr]. cbn [uinsert RNum ltb].
@@ -130,7 +136,7 @@ Proof.
     + split; assumption.
 Qed.
 
-Lemma uinsert_incr l x : incr l -> incr (uinsert RNum x l).
+Lemma uinsert_incr (l : list R) (x : R) : incr l -> incr (uinsert RNum x l).
 Proof.
   destruct l as [|y r]; intro Hi; [cbn; tauto|]. cbn [uinsert RNum ltb].
   destruct (Rltb x y) eqn:E1.
@@ -139,7 +145,7 @@ Proof.
     apply Rltb_true in E2. apply uinsert_incr'; assumption.
 Qed.
 
-Lemma uinsert_In l x y : In y (uinsert RNum x l) <-> y = x \/ In y l.
+Lemma uinsert_In (l : list R) (x y : R) : In y (uinsert RNum x l) <-> y = x \/ In y l.
 Proof.
   induction l as [|z r IH]; [cbn; intuition|]. cbn [uinsert RNum ltb].
   destruct (Rltb x z) eqn:E1; [cbn; intuition|].
@@ -148,23 +154,23 @@ Proof.
   - apply Rltb_false in E1, E2. assert (x = z) by lra. subst. cbn [In]. intuition.
 Qed.
 
-Lemma usort_incr l : incr (usort RNum l).
+Lemma usort_incr (l : list R) : incr (usort RNum l).
 Proof. induction l as [|x r IH]; [cbn; tauto|]. cbn [usort fold_right]. apply uinsert_incr. exact IH. Qed.
 
-Lemma usort_In l y : In y (usort RNum l) <-> In y l.
+Lemma usort_In (l : list R) (y : R) : In y (usort RNum l) <-> In y l.
 Proof.
   induction l as [|x r IH]; [cbn; tauto|]. cbn [usort fold_right]. fold (usort RNum r).
   rewrite uinsert_In, IH. cbn [In]. intuition.
 Qed.
 
-Lemma rank_cons a s x :
+Lemma rank_cons (a : R) (s : list R) (x : R) :
   rank RNum (a :: s) x = ((if Rltb a x then 1 else 0) + rank RNum s x)%nat.
 Proof. unfold rank. cbn [filter RNum ltb]. destruct (Rltb a x); reflexivity. Qed.
 
-Lemma rank_le_length s x : (rank RNum s x <= length s)%nat.
+Lemma rank_le_length (s : list R) (x : R) : (rank RNum s x <= length s)%nat.
 Proof. induction s as [|a s IH]; [cbn; lia|]. rewrite rank_cons. cbn [length]. destruct (Rltb a x); lia. Qed.
 
-Lemma rank_mono s x y : x <= y -> (rank RNum s x <= rank RNum s y)%nat.
+Lemma rank_mono (s : list R) (x y : R) : x <= y -> (rank RNum s x <= rank RNum s y)%nat.
 Proof.
   intro Hxy. induction s as [|a s IH]; [cbn; lia|]. rewrite !rank_cons.
   destruct (Rltb a x) eqn:E1, (Rltb a y) eqn:E2; try lia.
@@ -172,13 +178,14 @@ Proof.
 Qed.
 
 (** the values below [x] form a prefix of a sorted list *)
-Lemma rank_prefix : forall s x, incr s ->
+Lemma rank_prefix : forall (s : list R) (x : R), incr s ->
   (0 < rank RNum s x)%nat -> nth (rank RNum s x - 1) s 0 < x.
 Proof.
   induction s as [|a s IH]; intros x Hi Hr; [cbn in Hr; lia|].
   rewrite rank_cons in *. destruct (rank RNum s x) as [|r'] eqn:Er.
   - destruct (Rltb a x) eqn:E; [|lia]. apply Rltb_true in E. cbn. exact E.
-  - assert (Hs : nth (S r' - 1) s 0 < x) by (apply IH; [eapply incr_tl; exact Hi|lia]).
+  - assert (Hs : nth (S r' - 1) s 0 < x).
+    { rewrite <- Er. apply IH; [eapply incr_tl; exact Hi|lia]. }
     replace (S r' - 1)%nat with r' in Hs by lia.
     assert (Hr' : (S r' <= length s)%nat) by (rewrite <- Er; apply rank_le_length).
     assert (Ha : a < nth r' s 0).
@@ -188,14 +195,14 @@ Proof.
     + apply Rltb_false in E. lra.
 Qed.
 
-Lemma rank_le_iff s x k : incr s -> (k < length s)%nat ->
+Lemma rank_le_iff (s : list R) (x : R) k : incr s -> (k < length s)%nat ->
   ((rank RNum s x <= k)%nat <-> x <= nth k s 0).
 Proof.
   intros Hi Hk. split.
   - (* if x > s_k then s_0..s_k are all below x *)
     intro Hr. destruct (Rle_dec x (nth k s 0)) as [|Hn]; [assumption|]. exfalso.
     apply Rnot_le_lt in Hn.
-    clear Hr0. revert k Hk Hn Hr. revert Hi. revert s.
+    revert k Hk Hn Hr. revert Hi. revert s.
     induction s as [|a s IH]; intros Hi k Hk Hn Hr; [cbn in Hk; lia|].
     rewrite rank_cons in Hr. destruct k as [|k].
     + cbn in Hn. apply Rltb_true in Hn. rewrite Hn in Hr. lia.
@@ -211,13 +218,13 @@ Proof.
     lra.
 Qed.
 
-Lemma rank_nth s m : incr s -> (m < length s)%nat -> rank RNum s (nth m s 0) = m.
+Lemma rank_nth (s : list R) m : incr s -> (m < length s)%nat -> rank RNum s (nth m s 0) = m.
 Proof.
   intros Hi Hm. apply Nat.le_antisymm.
   - apply (rank_le_iff s _ m Hi Hm). lra.
   - destruct m as [|m]; [lia|].
     destruct (le_lt_dec (S m) (rank RNum s (nth (S m) s 0))) as [|Hlt]; [assumption|]. exfalso.
-    assert (Hle : (rank RNum s (nth (S m) s 0) <= m)%nat) by lia.
+    assert (Hle : (rank RNum s (nth (S m) s 0%R) <= m)%nat) by lia.
     apply (rank_le_iff s _ m Hi) in Hle; [|lia].
     assert (nth m s 0 < nth (S m) s 0) by (apply incr_nth_lt; [exact Hi|lia]). lra.
 Qed.
@@ -227,7 +234,7 @@ Qed.
 Definition covers (t : nat -> R) (lo hi : R) (e : (nat * nat) * (R * R)) : bool :=
   Rltb 0 (t (fst (fst e)) - t (snd (fst e))) && Rleb (t (snd (fst e))) lo && Rleb hi (t (fst (fst e))).
 
-Lemma contrib_covers s (t : nat -> R) k e (w : R) :
+Lemma contrib_covers (s : list R) (t : nat -> R) k (e : (nat * nat) * (R * R)) (w : R) :
   incr s -> (S k < length s)%nat -> In (t (fst (fst e))) s ->
   (if Rltb 0 (t (fst (fst e)) - t (snd (fst e)))
    then ind (rank RNum s (t (snd (fst e))) <=? k)%nat w - ind (rank RNum s (t (fst (fst e))) <=? k)%nat w
@@ -264,7 +271,7 @@ Proof.
     destruct (Rle_dec (t c) (nth k s 0)) as [Hle|Hn]; [apply Hc in Hle; lia|apply Rnot_le_lt; exact Hn].
 Qed.
 
-Lemma nth_diff : forall l k, (S k < length l)%nat ->
+Lemma nth_diff : forall (l : list R) k, (S k < length l)%nat ->
   nth k (diff RNum l) 0 = nth (S k) l 0 - nth k l 0.
 Proof.
   induction l as [|a [|b r] IH]; intros k Hk; cbn [length] in Hk; try lia.
@@ -273,16 +280,27 @@ Proof.
   cbn [nth]. apply (IH k). cbn [length]. lia.
 Qed.
 
-Lemma diff_length l : length (diff RNum l) = (length l - 1)%nat.
+Lemma diff_length (l : list R) : length (diff RNum l) = (length l - 1)%nat.
 Proof.
-  unfold diff. rewrite map_length, combine_length. destruct l; cbn; lia.
+  unfold diff. rewrite map_length, combine_length. destruct l as [|a r]; cbn [length tl T RNum]; lia.
 Qed.
+
+Lemma duration_nth (s : list R) k : (S k < length s)%nat ->
+  nth k (diff RNum (epoch_breaks_of RNum s)) 0 = nth (S k) s 0 - (if (k =? 0)%nat then 0 else nth k s 0).
+Proof.
+  intro Hk. destruct s as [|a s']; [cbn in Hk; lia|]. unfold epoch_breaks_of. cbn [tl].
+  rewrite nth_diff by (cbn [length T RNum] in *; lia).
+  destruct k; cbn [nth Nat.eqb RNum zero]; reflexivity.
+Qed.
+
+Lemma duration_length (s : list R) : length (diff RNum (epoch_breaks_of RNum s)) = (length s - 1)%nat.
+Proof. rewrite diff_length. unfold epoch_breaks_of. destruct s; cbn [length tl T RNum]; lia. Qed.
 
 Lemma map_ext_in_R {A} (f g : A -> R) l : (forall x, In x l -> f x = g x) -> Rsum (map f l) = Rsum (map g l).
 Proof. intro H. f_equal. apply map_ext_in. exact H. Qed.
 
 (** ** the statement *)
-Lemma area_is_overlap times liks edges counts offset duration index :
+Lemma area_is_overlap (times : list R) (liks : list (R * R)) edges (counts offset duration : list R) index :
   (forall p c, In (p, c) edges -> (p < length times)%nat) ->
   mutational_area RNum times liks edges = (counts, offset, duration, index) ->
   let s := usort RNum times in
@@ -309,7 +327,7 @@ Proof.
   split; [exact Hi|]. split; [exact HIn|].
   split; [subst counts; rewrite cumsum_length; unfold tabulate; rewrite map_length, seq_length; reflexivity|].
   split; [subst offset; rewrite cumsum_length; unfold tabulate; rewrite map_length, seq_length; reflexivity|].
-  split; [subst duration; rewrite diff_length; unfold epoch_breaks_of; destruct s; cbn; lia|].
+  split; [subst duration; apply duration_length|].
   split; [subst index; unfold tabulate; rewrite map_length, seq_length; reflexivity|].
   split.
   - intros k Hk.
@@ -322,15 +340,14 @@ Proof.
       unfold t, nthT. apply nth_In. eapply Hedges; exact Hin. }
     split; [|split].
     + subst counts. rewrite cumsum_tabulate_nth by exact Hkn.
-      unfold area_diffs_of. fold t. rewrite E0, Rplus_0_l. apply map_ext_in_R.
+      etransitivity; [exact E0|]. rewrite Rplus_0_l. apply map_ext_in_R.
       intros e Hin. rewrite <- (contrib_covers s t k e _ Hi Hk (Hmem e Hin)).
       destruct e as [[p c] [y sp]]. reflexivity.
     + subst offset. rewrite cumsum_tabulate_nth by exact Hkn.
-      unfold area_diffs_of. fold t. rewrite E1, Rplus_0_l. apply map_ext_in_R.
+      etransitivity; [exact E1|]. rewrite Rplus_0_l. apply map_ext_in_R.
       intros e Hin. rewrite <- (contrib_covers s t k e _ Hi Hk (Hmem e Hin)).
       destruct e as [[p c] [y sp]]. reflexivity.
-    + subst duration. unfold epoch_breaks_of. rewrite nth_diff by (destruct s; cbn [length tl] in *; lia).
-      destruct s as [|a s']; [cbn in Hk; lia|]. cbn [tl]. destruct k; cbn [nth Nat.eqb RNum zero]; reflexivity.
+    + subst duration. apply duration_nth. exact Hk.
   - intros i Hi'. subst index. unfold tabulate.
     rewrite (nth_indep _ O (node_index_of RNum s times O)) by (rewrite map_length, seq_length; exact Hi').
     rewrite (map_nth (node_index_of RNum s times)), seq_nth by exact Hi'. cbn [plus].
